@@ -15,7 +15,7 @@ REPO_CFLAGS_COMMON := -std=gnu99 -g -fno-omit-frame-pointer -U_FORTIFY_SOURCE -D
 
 # ---------------------------------------------------------------- net engine (C18, C19)
 NET_SAN := -fsanitize=address,bounds,integer-divide-by-zero -fno-sanitize-recover=all
-NET_REPO_CFLAGS := $(REPO_CFLAGS_COMMON) -O1 $(NET_SAN) $(COV) -I$(EX)
+NET_REPO_CFLAGS := $(REPO_CFLAGS_COMMON) -O1 -fno-inline $(NET_SAN) $(COV) -I$(EX)
 NETB := $(B)/net
 NET_LIB_OBJS := $(patsubst $(REPO)/src/avtp/%.c,$(NETB)/lib/%.o,$(LIB_SRCS))
 NET_WRAPS := socket bind ioctl setsockopt close recv sendto read write poll clock_gettime clock_nanosleep sleep timerfd_create timerfd_settime rand exit
@@ -23,7 +23,7 @@ NET_WRAPFLAGS := $(foreach w,$(NET_WRAPS),-Wl,--wrap=$(w))
 
 # example program -> main symbol
 define EXRULE
-$(NETB)/ex/$(1).o: $(EX)/$(2) $(REPO_HDRS) | dirs
+$(NETB)/ex/$(1).o: $(EX)/$(2) $(REPO_HDRS) Makefile | dirs
 	$(CC) $(NET_REPO_CFLAGS) -Dmain=$(3) -c $$< -o $$@
 NET_EX_OBJS += $(NETB)/ex/$(1).o
 endef
@@ -43,7 +43,7 @@ $(eval $(call EXRULE,crf-listener,crf/crf-listener.c,crf_listener_main))
 $(eval $(call EXRULE,crf-listener-b,crf/crf-listener.c,crf_listener_b_main))
 $(eval $(call EXRULE,common,common/common.c,unused_main_2))
 
-$(NETB)/lib/%.o: $(REPO)/src/avtp/%.c $(REPO_HDRS) | dirs
+$(NETB)/lib/%.o: $(REPO)/src/avtp/%.c $(REPO_HDRS) Makefile | dirs
 	@mkdir -p $(dir $@)
 	$(CC) $(NET_REPO_CFLAGS) -c $< -o $@
 
@@ -51,7 +51,7 @@ NET_SIM_SRCS := sim/task.cc sim/driver.cc sim/symtab.cc sim/cov.cc engines/net/w
 NET_SIM_OBJS := $(patsubst %.cc,$(NETB)/sim/%.o,$(NET_SIM_SRCS))
 SIM_HDRS := $(wildcard sim/*.h engines/net/*.h spec/*.h)
 
-$(NETB)/sim/%.o: %.cc $(SIM_HDRS) | dirs
+$(NETB)/sim/%.o: %.cc $(SIM_HDRS) Makefile | dirs
 	@mkdir -p $(dir $@)
 	$(CXX) $(SIM_CXXFLAGS) -fsanitize=address -c $< -o $@
 
